@@ -392,6 +392,48 @@ fn twin_zoned(r: &mut Rng) {
 
 // ---- rendering (C10 / C12): documented text of every numeric specifier, offsets, fractions, RFC 3339 both ways ---------------
 fn year_txt(y: i32) -> String { if (0..=9999).contains(&y) { format!("{:04}", y) } else { format!("{:+05}", y) } }
+
+/// independent strict recogniser of the RFC 3339 date-time grammar (with chrono's documented latitude: T/t/space, Z/z, any number of
+/// fraction digits, U+2212 as minus); returns (unix seconds, nanosecond field incl. leap, offset seconds)
+fn rfc3339_spec(s: &str) -> Option<(i128, u32, i32)> {
+    let c: Vec<char> = s.chars().collect();
+    let mut i = 0usize;
+    let num = |c: &Vec<char>, i: &mut usize, n: usize| -> Option<u32> { let mut v = 0u32; for _ in 0..n { let ch = *c.get(*i)?; if !ch.is_ascii_digit() { return None; } v = v * 10 + ch as u32 - '0' as u32; *i += 1; } Some(v) };
+    let lit = |c: &Vec<char>, i: &mut usize, set: &[char]| -> Option<char> { let ch = *c.get(*i)?; if set.contains(&ch) { *i += 1; Some(ch) } else { None } };
+    let y = num(&c, &mut i, 4)?; lit(&c, &mut i, &['-'])?; let mo = num(&c, &mut i, 2)?; lit(&c, &mut i, &['-'])?; let d = num(&c, &mut i, 2)?;
+    lit(&c, &mut i, &['T', 't', ' '])?;
+    let h = num(&c, &mut i, 2)?; lit(&c, &mut i, &[':'])?; let mi = num(&c, &mut i, 2)?; lit(&c, &mut i, &[':'])?; let sec = num(&c, &mut i, 2)?;
+    let mut ns: u64 = 0;
+    if c.get(i) == Some(&'.') { i += 1; let mut k = 0; while i < c.len() && c[i].is_ascii_digit() { if k < 9 { ns = ns * 10 + (c[i] as u64 - '0' as u64); } k += 1; i += 1; } if k == 0 { return None; } while k < 9 { ns *= 10; k += 1; } }
+    let off: i32 = match *c.get(i)? {
+        'Z' | 'z' => { i += 1; 0 }
+        sg @ ('+' | '-' | '\u{2212}') => { i += 1; let oh = num(&c, &mut i, 2)?; lit(&c, &mut i, &[':'])?; let om = num(&c, &mut i, 2)?; if oh > 23 || om > 59 { return None; } let v = (oh * 3600 + om * 60) as i32; if sg == '+' { v } else { -v } }
+        _ => return None,
+    };
+    if i != c.len() { return None; }
+    let ml = |y: u32, m: u32| -> u32 { match m { 2 => if is_leap(y as i128) { 29 } else { 28 }, 4 | 6 | 9 | 11 => 30, _ => 31 } };
+    if mo < 1 || mo > 12 || d < 1 || d > ml(y, mo) || h > 23 || mi > 59 || sec > 60 { return None; }
+    let cum: u32 = (1..mo).map(|m| ml(y, m)).sum();
+    let n = dby(y as i128) + (cum + d) as i128;
+    let (sec, ns) = if sec == 60 { (59, ns as u32 + 1_000_000_000) } else { (sec, ns as u32) };
+    Some(((n - 719_163) * 86400 + (h * 3600 + mi * 60 + sec) as i128 - off as i128, ns, off))
+}
+fn rfc3339_mutation_sweep(bases: &[String]) {
+    let repl = ['0', '5', '9', 'Z', 'z', ':', '-', '+', 'T', ' ', '.', '\u{0663}', '\u{00bd}', 'a', '\u{2212}'];
+    for b in bases {
+        let cs: Vec<char> = b.chars().collect();
+        let mut variants: Vec<String> = vec![b.clone()];
+        for i in 0..cs.len() {
+            let mut v = cs.clone(); v.remove(i); variants.push(v.iter().collect());
+            for r in repl { let mut v = cs.clone(); v[i] = r; variants.push(v.iter().collect()); let mut v = cs.clone(); v.insert(i, r); variants.push(v.iter().collect()); }
+        }
+        for r in repl { let mut v = cs.clone(); v.push(r); variants.push(v.iter().collect()); }
+        for v in variants {
+            let got = guard(|| DateTime::parse_from_rfc3339(&v).ok().map(|p| (p.timestamp() as i128, p.timestamp_subsec_nanos(), p.offset().local_minus_utc())));
+            chk!("parse_from_rfc3339 (grammar mutation)", &v, got, Ok(rfc3339_spec(&v)));
+        }
+    }
+}
 fn twin_fmt(r: &mut Rng) {
     use chrono::SecondsFormat::*;
     let xs = ndt_grid(r);
@@ -459,6 +501,8 @@ fn twin_fmt(r: &mut Rng) {
             chk!("to_rfc3339", (x, o), guard(|| z.to_rfc3339()), guard(|| z.to_rfc3339_opts(AutoSi, false)));
         }
     } }
+    let bases: Vec<String> = ["2015-01-20T17:35:20-08:00", "2024-02-29T23:59:60.5Z", "1999-12-09 00:00:00.123456789012+05:30", "0000-01-01t00:00:00z", "9999-12-31T23:59:59.9+23:59"].iter().map(|s| s.to_string()).collect();
+    rfc3339_mutation_sweep(&bases);
     // strict RFC 3339 parser rejects near misses
     for bad in ["2024-01-01T00:00:00", "2024-01-01 00:00:00+0000", "2024-1-01T00:00:00Z", "2024-01-01T24:00:00Z", "2024-02-30T00:00:00Z", "2024-01-01T00:00:00+24:00", "2024-01-01T00:00:00Z ", " 2024-01-01T00:00:00Z",
                 "2024-01-01T00:00:00.Z", "2024-01-01T00:60:00Z", "2024-01-01T00:00:61Z", "20240101T000000Z", "2024-01-01T00:00:00+00", "2024-01-01T00:00:00+00:60", "2023-02-29T00:00:00Z"] {
